@@ -6,7 +6,7 @@ from rangelib import *
 from abacuslib import *
 
 RULE = ("library level: every ChallengeInput type (scalar, G1/G2 element, signature, commitment, Pedersen parameters, public "
-        "key, commitment / signature / signature-request proof, range parameters, range constraint) for N in {1,2,3,5,8,13}: "
+        "key, commitment / signature / signature-request proof, range parameters, range constraint) for N in {1,2,3,5,8,13,17,34}: "
         "the chunks recorded by the hook are compared with the model's chunk list and with SHA3 of their concatenation, "
         "then every atom of the object's wire form is replaced in turn (every one in thorough; all key / proof atoms and a "
         "sample of the 256 range-parameter signature atoms in quick). zkAbacus level: for an honest establish proof and an "
@@ -16,7 +16,7 @@ RULE = ("library level: every ChallengeInput type (scalar, G1/G2 element, signat
 TRUSTED = ["theorems C12_* (list injectivity, no field assumptions); hook = feature verif-hooks (chunk recorder)"]
 ASSUMPTIONS = ["'the challenge changes' is established as 'the hashed byte string changes' (theorems + monitor on the real "
                "digest); that SHA3-256 maps different strings to different scalars is collision resistance, not proved"]
-NS = [1, 2, 3, 5, 8, 13]
+NS = [1, 2, 3, 5, 8, 13, 17, 34]
 
 
 def atoms_of(layout, hexs):
@@ -91,6 +91,13 @@ def probe(run, h, pts, batch, rng, name, kind, hexs, layout, model_term, sample=
     run.count("type " + name.split("<")[0])
     run.check_corr("corr.C12.challenge_is_reduced_sha3_of_chunks",
                    sha3(b"".join(bytes.fromhex(x) for x in chunks)) == digest and chal_of_digest(digest) == c0, case)
+    # the challenge recomputed by the Gallina SHA3-256 and the model's digest -> scalar reduction (Model/Sha3.v, Model/Ids.v)
+    data = b"".join(bytes.fromhex(x) for x in chunks)
+    if len(data) <= (2000 if run.tier == "quick" else 20000):
+        def cmp_sha(r, case=case, c0=c0):
+            run.check_corr("corr.C12.challenge_is_gallina_sha3_of_chunks_reduced_mod_q", r == [c0], dict(case, model=r))
+        batch.add("r_sha3_challenge %s" % zlist(list(data)), cmp_sha)
+        run.count("challenge recomputed with the Gallina SHA3")
     if model_term:
         def cmp(r, case=case, chunks=chunks, ctx=ctx):
             run.check_corr("corr.C12.chunks_of_" + name.split("<")[0], concretize_atoms(pts, r) + [ctx.hex()] == chunks,
@@ -191,6 +198,12 @@ def establish_level(run, h, pts, batch, rng, M):
     c0 = base["chal"]["c"]
     case0 = {"level": "establish", "cid": cid.hex(), "cb": cb, "mb": mb, "ctx": ctx.hex()}
     run.check_monitor("prover_and_verifier_challenges_match", base["ok"] and e["chal"]["c"] == c0, case0)
+    data = b"".join(bytes.fromhex(x) for x in base["chal"]["chunks"])
+
+    def cmp_sha(r, case=case0, c0=c0):
+        run.check_corr("corr.C12.challenge_is_gallina_sha3_of_chunks_reduced_mod_q", r == [c0], dict(case, model=r))
+    batch.add("r_sha3_challenge %s" % zlist(list(data)), cmp_sha)
+    run.count("challenge recomputed with the Gallina SHA3")
 
     def init_chal(handle, cid_, cb_, mb_, proof, ctx_):
         h.call("chal_drain")
